@@ -137,7 +137,8 @@ class Scheduler:
     not reach its next point within `block_timeout` is treated as blocked (e.g. on the import lock) and another
     thread is scheduled meanwhile."""
 
-    def __init__(self, watched, choices, block_timeout=0.05, horizon=4000, watch_module_code=True):
+    def __init__(self, watched, choices, block_timeout=0.05, horizon=4000, watch_module_code=True, opcodes=False):
+        self.opcodes = opcodes      # scheduling points at every bytecode instruction of watched code (races inside one line)
         self.watched = watched
         self.choices = list(choices)
         self.block_timeout = block_timeout
@@ -153,8 +154,10 @@ class Scheduler:
         self.threads = []
 
     def _tracer(self, tid):
+        want = 'opcode' if self.opcodes else 'line'
+
         def local(frame, event, arg):
-            if event == 'line' and not self.free:
+            if event == want and not self.free:
                 self.q.put((tid, 'point', (frame.f_code.co_name, frame.f_lineno)))
                 self.sems[tid].acquire()
             return local
@@ -162,6 +165,8 @@ class Scheduler:
         def glob(frame, event, arg):
             code = frame.f_code
             if code in self.watched:
+                if self.opcodes:
+                    frame.f_trace_opcodes = True
                 return local
             if self.watch_module_code and code.co_name == '<module>' and '/stdnum/' in code.co_filename.replace('\\', '/'):
                 return local
@@ -255,8 +260,28 @@ class Scheduler:
 
 
 
+def prime_opcodes(watched, fn):
+    """Run fn() with per-instruction tracing switched on for the watched code objects.  CPython 3.12 instruments a
+    code object for 'opcode' events when the flag is first set on one of its frames, and that first frame itself
+    then misses the events: priming in the main thread makes the explored threads see every instruction."""
+    def local(frame, event, arg):
+        return local
+
+    def glob(frame, event, arg):
+        if frame.f_code in watched:
+            frame.f_trace_opcodes = True
+            return local
+        return None
+    old = sys.gettrace()
+    sys.settrace(glob)
+    try:
+        return fn()
+    finally:
+        sys.settrace(old)
+
+
 def explore_schedules(make_bodies, watched, bound, reset, check, max_execs=20000, watch_module_code=True, horizon=4000,
-                      earliest_first=False, stride=1):
+                      earliest_first=False, stride=1, opcodes=False):
     """CHESS-style exploration: run the default schedule, then every alternative choice at every point whose
     preemption count stays within `bound`.  Returns (executions, distinct outcome count, capped?)."""
     n = 0
@@ -269,7 +294,7 @@ def explore_schedules(make_bodies, watched, bound, reset, check, max_execs=20000
             capped = True
             break
         reset()
-        s = Scheduler(watched, prefix, watch_module_code=watch_module_code, horizon=horizon)
+        s = Scheduler(watched, prefix, watch_module_code=watch_module_code, horizon=horizon, opcodes=opcodes)
         res = None
         for attempt in range(3):
             try:
@@ -284,7 +309,7 @@ def explore_schedules(make_bodies, watched, bound, reset, check, max_execs=20000
                 # reported to the caller through check() as a scheduler anomaly (never silently dropped)
                 last_error = str(e)
                 reset()
-                s = Scheduler(watched, prefix, watch_module_code=watch_module_code, horizon=horizon)
+                s = Scheduler(watched, prefix, watch_module_code=watch_module_code, horizon=horizon, opcodes=opcodes)
         else:
             outcomes['<anomaly> ' + last_error[:60]] = outcomes.get('<anomaly> ' + last_error[:60], 0) + 1
             res = None
